@@ -85,6 +85,16 @@ def _cases(draw: Any, tier: str) -> Dict[str, Any]:
                            seq_rate=0.15, prio=(-2, 4), faults=2, max_mc=4, profile_rate=0.25))
     if draw(st.integers(0, 5)) == 0:
         c["noframe"] = True
+    if c.get("failing") and draw(st.integers(0, 3)) == 0:
+        # the failing node runs inline on the scheduler's thread and is the last choice among the ready nodes: it
+        # fails right after its better-placed siblings have been dispatched, with no wait in between
+        P = c["prog"]
+        uses: Dict[str, int] = {}
+        for b in P["body"]:
+            uses[b["fn"]] = uses.get(b["fn"], 0) + 1
+        for b in P["body"]:
+            if b["site"] in c["failing"] and uses[b["fn"]] == 1:
+                P["fns"][b["fn"]].update(res="main-thread", prio=-9)
     return c
 
 
